@@ -62,9 +62,13 @@ def gen_model_spec(rng) -> dict:
     """all random choices of a generated project, as plain data"""
     npops = rng.choice([1, 2, 2, 3])
     pops = ["aa", "bb", "cc"][:npops]
-    dt = rng.choice([1.0, 0.5, 0.25])
+    dt = rng.choice([1.0, 0.5, 0.25, 0.2])
     start = 2015.0
     end = rng.choice([2021.0, 2022.0, 2024.0])
+    if dt == 0.2:
+        # a step that is not a binary fraction, and end years for which (end - start)/dt evaluates a few ulp above an integer: re-assigning the end year
+        # (what calibrate and run_optimization do when they restore the settings) must give the same grid again
+        end = rng.choice([2021.2, 2021.4, 2022.0])
     data_end = rng.choice([2018, 2019, 2020])
     spec = {"kind": "gen", "pops": pops, "dt": dt, "start": start, "end": end, "data_years": list(range(2015, data_end + 1)), "pop": {}, "progs": {}, "covouts": []}
     for p in pops:
